@@ -1,7 +1,8 @@
 SPEC = dict(
     id="C20",
     props_file="Props/C20.v",
-    harness=[dict(pkg="blob", test="TestVerifC20", timeout=900, timeout_thorough=3000)],
+    harness=[dict(pkg="blob", test="TestVerifC20", timeout=900, timeout_thorough=3000),
+             dict(pkg="nodebuilder/header", test="TestVerifC20Feed", timeout=900, timeout_thorough=3000)],
     allowed_axioms=[],
     level_text=("Machine-checked theorems (Coq, no axioms) over a labelled transition system of blob.Service.Subscribe at channel "
                 "granularity (header feed -> getAll retry loop -> send on the 16-slot channel, consumer, cancel / service stop / feed close): "
